@@ -1793,9 +1793,9 @@ func (te *TemplateEngine) applyRenderedContentToDocument(doc *Document, content 
 			}
 			para.Runs = append(para.Runs, run)
 		} else {
-			// 空行也需要一个空的Run来保持段落结构
+			// 空行也需要一个Run来保持段落结构；只含空白的行保留其空白
 			run := Run{
-				Text: Text{Content: ""},
+				Text: Text{Content: line},
 				Properties: &RunProperties{
 					FontFamily: &FontFamily{
 						ASCII:    "仿宋",
